@@ -161,10 +161,12 @@ func (ex *Exec) doReturn(st *State, fr *Frame, in *ssa.Return) bool {
 			fc.emit(st, "objinv."+tc.typ, "", "object invariant of "+tc.typ+": "+oi.Text, oi.Tags, ienv.evalBool(oi.E))
 		}
 		env := ex.envFor(st, extra)
+		fc.curObs = fc.observablesAt(st, results)
 		for i, e := range fr.contract.Ensures {
 			t := env.evalBool(e.E)
 			fc.emit(st, fmt.Sprintf("post.%d", i+1), "", e.Text, e.Tags, t)
 		}
+		fc.curObs = nil
 		return true
 	}
 	// inlined callee: hand results to caller
